@@ -196,6 +196,9 @@ pub enum Policy {
     LeftChain,
     RightChain,
     Balanced,
+    /// a few very unequal merges: 1..3 items (or a thousandth of the range) split off one end,
+    /// the large remainder split further or summarised in one leaf
+    Lopsided,
     /// no split at all: the sequential, single-pass execution
     Single,
 }
@@ -334,6 +337,46 @@ fn plan_chain(n: usize, left: bool) -> Plan {
     p
 }
 
+fn plan_lopsided(rng: &mut Rng, n: usize, depth: usize) -> Plan {
+    if n < 2 || depth > 6 {
+        return Plan::Leaf;
+    }
+    let small = match rng.below(4) {
+        0 => 1,
+        1 => 2,
+        2 => 1 + rng.usize(3),
+        _ => 1 + n / (1000 + rng.usize(5000)),
+    }
+    .min(n - 1);
+    let small_left = rng.chance(0.5);
+    let big_n = n - small;
+    let big = match rng.below(4) {
+        0 => Plan::Leaf,
+        1 => plan_balanced(big_n.min(64)).clone_scaled(big_n),
+        _ => plan_lopsided(rng, big_n, depth + 1),
+    };
+    if small_left {
+        Plan::Split { mid: small, tail: 0, l: Box::new(Plan::Leaf), r: Box::new(big) }
+    } else {
+        Plan::Split { mid: big_n, tail: 0, l: Box::new(big), r: Box::new(Plan::Leaf) }
+    }
+}
+
+impl Plan {
+    /// a balanced plan over `n` items with at most ~64 leaves
+    fn clone_scaled(&self, n: usize) -> Plan {
+        fn go(n: usize, leaves: usize) -> Plan {
+            if leaves <= 1 || n <= 1 {
+                return Plan::Leaf;
+            }
+            let mid = n / 2;
+            Plan::Split { mid, tail: 0, l: Box::new(go(mid, leaves / 2)), r: Box::new(go(n - mid, leaves - leaves / 2)) }
+        }
+        let _ = self;
+        go(n, 16)
+    }
+}
+
 fn plan_balanced(n: usize) -> Plan {
     if n <= 1 {
         return Plan::Leaf;
@@ -434,6 +477,7 @@ pub fn generate(rng: &mut Rng, cfg: &GenCfg) -> (TreeTrace, GenStats) {
         Policy::LeftChain => Some(plan_chain(cfg.n, true)),
         Policy::RightChain => Some(plan_chain(cfg.n, false)),
         Policy::Balanced => Some(plan_balanced(cfg.n)),
+        Policy::Lopsided => Some(plan_lopsided(rng, cfg.n, 0)),
         Policy::Single => Some(Plan::Leaf),
     };
     let min_len = cfg.min_len.max(1);
@@ -444,6 +488,8 @@ pub fn generate(rng: &mut Rng, cfg: &GenCfg) -> (TreeTrace, GenStats) {
     let mut jobs: Vec<Job> = vec![];
     let mut node_done: Vec<bool> = vec![false];
     let mut stalled: Vec<u32> = vec![0; t];
+    // PCT: a worker that could not make progress is passed over until somebody else did
+    let mut blocked: Vec<bool> = vec![false; t];
     let w0 = rng.usize(t);
     stacks[w0].push(Frame::Run(root));
     // PCT priorities
@@ -469,7 +515,7 @@ pub fn generate(rng: &mut Rng, cfg: &GenCfg) -> (TreeTrace, GenStats) {
             // highest priority worker that is not stalled
             let mut best = None;
             for i in 0..t {
-                if stalled[i] > 0 {
+                if stalled[i] > 0 || blocked[i] {
                     continue;
                 }
                 let has = !stacks[i].is_empty() || deques.iter().any(|d| !d.is_empty());
@@ -482,6 +528,9 @@ pub fn generate(rng: &mut Rng, cfg: &GenCfg) -> (TreeTrace, GenStats) {
                 None => {
                     for s in stalled.iter_mut() {
                         *s = s.saturating_sub(1);
+                    }
+                    for b in blocked.iter_mut() {
+                        *b = false;
                     }
                     continue;
                 }
@@ -499,6 +548,7 @@ pub fn generate(rng: &mut Rng, cfg: &GenCfg) -> (TreeTrace, GenStats) {
             continue;
         }
         // one step of worker w
+        let idle_before = st.idle_ticks;
         let top = stacks[w].pop();
         match top {
             None => {
@@ -506,6 +556,7 @@ pub fn generate(rng: &mut Rng, cfg: &GenCfg) -> (TreeTrace, GenStats) {
                 let victims: Vec<usize> = (0..t).filter(|&v| v != w && !deques[v].is_empty()).collect();
                 if victims.is_empty() {
                     st.idle_ticks += 1;
+                    blocked[w] = true;
                     continue;
                 }
                 let v = victims[rng.usize(victims.len())];
@@ -649,6 +700,7 @@ pub fn generate(rng: &mut Rng, cfg: &GenCfg) -> (TreeTrace, GenStats) {
                         let victims: Vec<usize> = (0..t).filter(|&v| !deques[v].is_empty()).collect();
                         if victims.is_empty() {
                             st.idle_ticks += 1;
+                            blocked[w] = true;
                         } else {
                             let v = victims[rng.usize(victims.len())];
                             // own deque: pop newest (LIFO); other: steal oldest
@@ -675,6 +727,11 @@ pub fn generate(rng: &mut Rng, cfg: &GenCfg) -> (TreeTrace, GenStats) {
                         notify(&mut stacks, &mut jobs, node);
                     }
                 }
+            }
+        }
+        if st.idle_ticks == idle_before {
+            for b in blocked.iter_mut() {
+                *b = false;
             }
         }
     }
@@ -767,7 +824,7 @@ pub fn run_tree<E: Est, H: Hooks<E>>(
 
     fn restore<E: Est, H: Hooks<E>>(id: usize, acc: E, hooks: &mut H) -> Result<E, Viol> {
         let json = acc.to_json();
-        if json.contains("null") {
+        if crate::framework::has_nonfinite_field(&acc.debug()) {
             // a non-finite field: outside C18's precondition (JSON cannot carry it)
             hooks.restore_skipped(id);
             return Ok(acc);
